@@ -431,19 +431,6 @@ Proof.
   rewrite !bytes_of_bits_octet. rewrite bytes_of_bits_short by (rewrite bits_be_length; lia). reflexivity.
 Qed.
 
-(* ---------- executable well-formedness ---------- *)
-Fixpoint wfb (s : list N) : bool :=
-  match s with
-  | [] => true
-  | a :: b :: c :: d :: r =>
-    match r with
-    | [] => in_alphabet a && in_alphabet b &&
-            ((in_alphabet c && (in_alphabet d || (d =? rfc_pad))) || ((c =? rfc_pad) && (d =? rfc_pad)))
-    | _ => in_alphabet a && in_alphabet b && in_alphabet c && in_alphabet d && wfb r
-    end
-  | _ => false
-  end.
-
 (* one group of the decoder, written out *)
 Lemma dec_group4 last a b c d :
   dec_group last 0 [a; b; c; d] 0 =
